@@ -47,6 +47,12 @@ theorem supportedB_sound {sb : Nat → W → Nat → Bool} {sc : List W → Nat 
 
 end supp
 
+/-- the run succeeds with final register `c0` and consumes all draws -/
+def checkRun {W S : Type} (p : Prog W (S × List Nat)) (ds : List Draw) (c0 : List Nat) : Bool :=
+  match runOracle p ds with
+  | some (.ok (_, c'), rest) => c' == c0 && rest.isEmpty
+  | _ => false
+
 /-! ### the model: `Q8` with `rsqrt` on the weights 1, ½, ¼ -/
 
 def q8Rat (r : Rat) : Q8 := ⟨r, 0, 0, 0⟩
@@ -138,9 +144,7 @@ theorem demo_no_resetAll : COp.resetAll ∉ demoOps := by
   simp [demoOps]
 
 /-- the run succeeds, consumes all draws, and stores the words `0b011100`-style values computed below -/
-theorem demo_runs : (match runOracle demoProg demoDraws with
-    | some (.ok (_, c'), rest) => c' == [4, 57] && rest.isEmpty
-    | _ => false) = true := by decide +kernel
+theorem demo_runs : checkRun demoProg demoDraws [4, 57] = true := by decide +kernel
 
 theorem demo_supported : supportedB suppBinB suppCatB demoProg demoDraws = true := by decide +kernel
 
@@ -162,14 +166,44 @@ def bellProg : Prog Q8 (StabState × List Nat) := execOps stabQ8 (StabState.new 
 /-- qubit 0 peeked as 0, qubit 1 peeked as 1 — each an outcome of probability ½ of its own binomial -/
 def bellDraws : List Draw := [.bin 1, .bin 0]
 
-theorem d5_model_stores_2 : (match runOracle bellProg bellDraws with
-    | some (.ok (_, c'), rest) => c' == [2] && rest.isEmpty
-    | _ => false) = true := by decide +kernel
+theorem d5_model_stores_2 : checkRun bellProg bellDraws [2] = true := by decide +kernel
 
 theorem d5_supported : supportedB suppBinB suppCatB bellProg bellDraws = true := by decide +kernel
 
 /-- the reference semantics: no candidate — the record `00 → 00 → 10` has Born probability 0 -/
 theorem d5_born_zero : Spec.replay (P := Empty) 2 nonzeroQ8 bellPeekAll [0, 0, 2] [(ket0 2, 0)] = [] := by
   decide +kernel
+
+/-! ### from the Boolean checks to the statements -/
+
+theorem run_of_check {W S : Type} {p : Prog W (S × List Nat)} {ds : List Draw} {c0 : List Nat}
+    (h : checkRun p ds c0 = true) : ∃ s', runOracle p ds = some (.ok (s', c0), []) := by
+  unfold checkRun at h
+  cases hr : runOracle p ds with
+  | none => rw [hr] at h; cases h
+  | some x =>
+    obtain ⟨r, rest⟩ := x
+    rw [hr] at h
+    cases r with
+    | error e => cases h
+    | ok sc =>
+      obtain ⟨s', c'⟩ := sc
+      simp only [Bool.and_eq_true, beq_iff_eq, List.isEmpty_iff] at h
+      obtain ⟨rfl, rfl⟩ := h
+      exact ⟨s', rfl⟩
+
+/-- the demo circuit has a successful run on draws in the support -/
+theorem demo_run : ∃ s', runOracle demoProg demoDraws = some (.ok (s', [4, 57]), []) ∧
+    Supported (suppBin nzQ8) (suppCat nzQ8) demoProg demoDraws :=
+  let ⟨s', h⟩ := run_of_check demo_runs
+  ⟨s', h, supportedB_sound suppBinB_sound suppCatB_sound _ _ demo_supported⟩
+
+/-- **D5**: on the stabilizer backend of the model, `h(0); cx(0,1); peek_all` with draws in the support stores
+the word `0b10`, a record for which the reference semantics has no candidate (Born probability 0) -/
+theorem d5_witness : (∃ s', runOracle bellProg bellDraws = some (.ok (s', [2]), []) ∧
+      Supported (suppBin nzQ8) (suppCat nzQ8) bellProg bellDraws) ∧
+    Spec.replay (P := Empty) 2 nonzeroQ8 bellPeekAll [0, 0, 2] [(ket0 2, 0)] = [] :=
+  ⟨let ⟨s', h⟩ := run_of_check d5_model_stores_2
+   ⟨s', h, supportedB_sound suppBinB_sound suppCatB_sound _ _ d5_supported⟩, d5_born_zero⟩
 
 end Q1t.Sim.Demo
